@@ -270,6 +270,34 @@ def run(facts, R):
         after = bool(mid_store) and all(rm.dominates(mid_store[0][0], x[0]) for x in ws)
         R.check(bool(ws) and w is None and after, "rebuild-covers-all", rm.path, "self.%s rebuilt after the list was extended" % fld,
                 "register_middleware does not rebuild `%s` on every path after updating the middleware list" % fld, rm.span, "rebuilt", path=w)
+    # every store to one of the three route tables, whoever makes it: the new table is built in that function (from entry literals, each
+    # judged above) or is this router's own table again - never another router's table adopted whole, whose dispatched slots carry *that*
+    # router's middleware chain (`self.inner = Arc::clone(&other.inner)` in a merge fast path)
+    n_tab = 0
+    for fld in ("inner", "registries", "structs"):
+        for w_ in field_writes(facts, "server::Router", fld):
+            if w_["kind"] != "store":
+                continue
+            wb_ = w_["body"]
+            n_tab += 1
+            from analysis.sym import split_rows as _sr
+            ws_ = Sym(wb_)
+            alts_ = (_sr(ws_, w_["bb"], w_["idx"], w_["rv"]) if getattr(wb_, "changed", False) else None) or [({}, ws_.rvalue(w_["rv"]))]
+            for _, v_ in alts_:
+                foreign = [x for x in walk(v_) if x[0] == "field" and x[2] in ("inner", "registries", "structs") and x[1][0] == "arg" and
+                           "server::Router" in wb_.local_ty(x[1][1]) and not (x[1][1] == 1 and (wb_.debug_name(1) or "self") == "self")]
+                adopted = bool(foreign) and not any(x[0] == "agg" for x in walk(v_)) and (v_[0] != "call" or v_[1].rsplit("::", 1)[-1] in ("clone", "new", "from", "into") and
+                                                                                        all(y[0] != "call" or y[1].rsplit("::", 1)[-1] in ("clone", "new", "from", "into", "deref", "as_ref") for y in walk(v_)))
+                if adopted:
+                    # ... unless neither router has any middleware at that point: then every dispatched slot is its raw handler on both sides
+                    fs_ = facts_at(wb_, ws_, facts, w_["bb"])
+                    empties_ = [render(f_["expr"][2][0]) for f_ in fs_ if is_call(f_["expr"], "is_empty") and f_["val"] is True and f_["expr"][2] and render(f_["expr"][2][0]).endswith(".middlewares")]
+                    if len(set(empties_)) >= 2:
+                        adopted = False
+                R.check(not adopted, "rebuild-covers-all", wb_.path, "a route table is never adopted from another router",
+                        "%s stores %s into self.%s: the entries' dispatched handlers were wrapped with the other router's middleware list, so this router's "
+                        "middleware does not run for them" % (wb_.path.rsplit("::", 1)[-1], render(v_)[:100], fld), w_.get("span"), "table built here from judged entry literals")
+    R.floor("rebuild-covers-all", n_tab, 6, "stores to the route tables")
     gt = facts.body("server::Router::get")
     gs = Sym(gt)
     rows = value_rows(gt, gs, facts, 0)
